@@ -37,6 +37,10 @@ type seqRunner struct {
 	prevStats               [6]uint64
 	probe                   bool
 	windowMax0              uint64
+	// scale jobs: which large-state features the run has reached (vacuity counters)
+	track          bool
+	lastSketchSize uint64
+	lastWindowMax  uint64
 }
 
 func newSeqRunner(cfg CacheCfg) *seqRunner {
@@ -588,6 +592,9 @@ func (s *seqRunner) apply(op string) OpResult {
 			s.writtenAt[e.val] = m.now
 		}
 	}
+	if s.track {
+		s.trackScale()
+	}
 	if st := r.C.VerifStatus(); st.WithMaintenance && st.ReadBufferLen >= 4 {
 		s.counters["read-buffer-saturated"]++
 	}
@@ -752,6 +759,37 @@ func (s *seqRunner) stateKey() string {
 
 func (s *seqRunner) close() { s.r.Close() }
 
+// trackScale counts which large-state features a scale workload has reached so far.
+func (s *seqRunner) trackScale() {
+	snap := s.r.C.VerifSnapshot()
+	if snap.SketchSample > 0 && snap.SketchSize < s.lastSketchSize {
+		s.counters["sketch-aged"]++
+	}
+	s.lastSketchSize = snap.SketchSize
+	if snap.PrevHitRate != 0 {
+		s.counters["climber-sampled"]++
+	}
+	if s.lastWindowMax != 0 && snap.WindowMax != s.lastWindowMax && snap.Maximum == uint64(s.m.max) {
+		s.counters["window-adapted"]++
+	}
+	s.lastWindowMax = snap.WindowMax
+	for _, w := range snap.Wheel {
+		if w[0] >= '2' {
+			s.counters["wheel-upper-levels"]++
+			break
+		}
+	}
+	if g, sh := s.r.C.VerifTableResizes(); g >= 2 {
+		s.counters["table-grew-twice"]++
+		if sh >= 1 {
+			s.counters["table-shrank-after-growth"]++
+		}
+	}
+	if snap.Status.WriteBufferSize > 64 {
+		s.counters["write-buffer-beyond-64"]++
+	}
+}
+
 // auditState (C05): in the quiescent state reached, the derived views agree with the contents.
 func (s *seqRunner) auditState(ops []string) {
 	c := s.r.C
@@ -853,6 +891,7 @@ func refreshResultWrong(r *Rig, key, value int, err error) string {
 // ---- BFS driver ----
 
 type seqParams struct {
+	Label    string         `json:"label,omitempty"`
 	Cfg      CacheCfg       `json:"cfg"`
 	Alphabet []string       `json:"alphabet"`
 	Prefixes [][]string     `json:"prefixes,omitempty"` // explored from each of these non-initial states (default: the empty prefix)
@@ -899,6 +938,7 @@ func seqExplore(res *Result, raw json.RawMessage, job *Job) {
 		defer Progress.Add(1)
 		s := newSeqRunner(p.Cfg)
 		s.probe = p.Probe
+		s.track = strings.HasPrefix(p.Label, "scale:")
 		defer s.close()
 		var obs []string
 		func() {
@@ -1088,6 +1128,7 @@ func seqReplay(res *Result, p seqParams, raw json.RawMessage, v *Violation) {
 	for round := 0; round < 2; round++ {
 		s := newSeqRunner(p.Cfg)
 		s.probe = p.Probe
+		s.track = strings.HasPrefix(p.Label, "scale:")
 		var obs []string
 		for i, op := range ops {
 			s.step = i
